@@ -34,7 +34,7 @@ Definition char_facts (bs : list N) : bool :=
   list_eqb N.eqb (utf8_encode (dec bs)) bs &&
   (match bs with b0 :: t => (utf8_seq_len b0 =? length bs)%nat && negb (is_utf8_continuation b0) &&
                              forallb is_utf8_continuation t && ((b0 <? 128) || (128 <=? dec bs)) &&
-                             (negb (b0 <? 128) || (length bs =? 1)%nat)
+                             (negb (b0 <? 128) || (length bs =? 1)%nat) && (utf8_first_byte (dec bs) =? b0)
                 | [] => false end).
 
 Fixpoint nrange (a : N) (n : nat) : list N := match n with O => [] | S k => a :: nrange (a + 1) k end.
